@@ -160,7 +160,34 @@ fn pretty_day(g: &mut Gen) -> i128 {
     }
 }
 
+/// every symbol x width 1..=10 x values chosen for the value-dependent rows of the table
+fn grid_c11(g: &mut Gen) {
+    use crate::civil::*;
+    let days: Vec<i128> = [(-10_000i64, 3, 7), (-9_999, 12, 31), (-150, 6, 15), (-100, 1, 1), (-99, 2, 28), (-50, 7, 4), (-10, 10, 10), (-9, 9, 9), (-1, 12, 31),
+                           (1, 1, 1), (9, 5, 5), (10, 11, 30), (99, 4, 1), (100, 8, 31), (2020, 12, 31), (2021, 1, 3), (2024, 2, 29), (9_999, 12, 31), (10_000, 1, 1), (123_456, 6, 6)]
+        .iter().map(|&(y, m, d)| days_from_ymd(y, m, d) as i128).collect();
+    for c in DATE_SYMS.chars() { for w in 1..=10usize { for &d in &days {
+        let items = vec![Item::Field(c, w)];
+        let mut strs = vec![unparse(&items)]; let mut ints = vec![0i128, d]; let iv = items_ints(&items, &mut strs); ints.extend(iv);
+        g.push(true, Input::with_strs("fmt", ints, strs));
+    } } }
+    let clocks: [i128; 9] = [0, 1, 43_199 * NPS + 999_999_999, 43_200 * NPS, 43_200 * NPS + 1, 3_600 * NPS, 13 * 3_600 * NPS + 5 * 60 * NPS + 9 * NPS + 123_456_789, 86_399 * NPS + 999_999_999, 12 * 3_600 * NPS + 60 * NPS];
+    let offs: [i128; 7] = [0, 3_600, -3_600, 1_800, -1, 86_399, -45_296];
+    for c in TIME_SYMS.chars() { for w in 1..=10usize { for (i, &n) in clocks.iter().enumerate() {
+        let o = if c == 'X' || c == 'x' { offs[(i + w) % offs.len()] } else { offs[i % 3] };
+        let items = vec![Item::Field(c, w)];
+        let mut strs = vec![unparse(&items)]; let mut ints = vec![1i128, n, o]; let iv = items_ints(&items, &mut strs); ints.extend(iv);
+        g.push(true, Input::with_strs("fmt", ints, strs));
+    } } }
+    for c in ['X', 'x'] { for w in 1..=6usize { for &o in &offs {
+        let items = vec![Item::Field(c, w)];
+        let mut strs = vec![unparse(&items)]; let mut ints = vec![2i128, 738_000, 43_200 * NPS, o]; let iv = items_ints(&items, &mut strs); ints.extend(iv);
+        g.push(true, Input::with_strs("fmt", ints, strs));
+    } } }
+}
+
 pub fn gen_c11(g: &mut Gen, tier: &str) {
+    grid_c11(g);
     let n = if tier == "thorough" { 60_000 } else { 3_000 };
     for k in 0..n {
         let kind = (k % 3) as i128;
